@@ -89,3 +89,15 @@ CHECKS["C17"] = {
         rapid_job("random", "./verifh/c17", "TestGroupRandom", 1500, 8000, shards_t=8),
     ],
 }
+
+CHECKS["C15"] = {
+    "rule": ("rapid-generated (paged RPC in {ListModes, ListHails, ListChildren, ListPublications, ListConsumables, ListInventory, ListWasteRecords}, collection size 0-60 / 49-51 / 999-1001, "
+             "ids with prefix relations/unicode/case, page size in {0,1,2,3,7,50,1000,5000,random}); the token chain is followed from the first page (bounded by n/size+4 pages) and the "
+             "concatenation compared with the model's full listing; plus negative page sizes and malformed tokens (random bytes, base64 garbage, truncated/suffixed tokens, offset tokens, "
+             "unknown/empty resource names; for index tokens: non-numbers, negative, beyond-the-end, overflowing). non-trivial = a listing of >=2 pages, or any hostile request; distinct by (rpc, size, ids/token)"),
+    "assumptions": ["servers are called directly (not through gRPC) so a panic is attributable", "read masks are not combined with paging (not in the property's quantifier)"],
+    "jobs": [
+        rapid_job("paging", "./verifh/c15", "TestPaging", 6000, 20000),
+        rapid_job("hostile", "./verifh/c15", "TestHostileRequests", 10000, 40000),
+    ],
+}
